@@ -206,8 +206,8 @@ class WorldGen(object):
                 path.append(key)
                 node = node[key]
             if path:
-                n = rng.randint(40, 250)
-                n = max(10, min(n, 700 // len(path)))
+                n = rng.randint(20, 120)
+                n = max(10, min(n, 240 // len(path)))       # with the lowered limit (400 frames) this is deep enough
                 instances.append({"$deep": {"unit": unit, "path": path, "n": n}})
         if self.formats:
             # strings that make the raising checkers raise, at the places the schemas look at
